@@ -4,7 +4,43 @@
 pub struct PV { pub hv: int, pub pending: Option<PreflateTokenReference>, pub count: u32, pub pos: int }
 // A-DET: the unverified prediction machinery is a function of (chain state, plaintext, position, parameters)
 pub uninterp spec fn sp_update(hv: int, len: u32, e: Env, pos: int) -> int;
-pub uninterp spec fn sp_predict(hv: int, pending: Option<PreflateTokenReference>, e: Env, pos: int) -> (PreflateToken, Option<PreflateTokenReference>);
+/// A-DET: the lazy-match probe one byte ahead (hash_chain_holder.rs match_token_offset::<1>; not verified)
+pub uninterp spec fn sp_match1(hv: int, prev_len: u32, max_depth: u32, e: Env, pos: int) -> MatchResult;
+/// TokenPredictor::predict_token as a function (proved in U17 against the real body; formerly assumption A-PRED):
+/// the token predicted at pos and the pending lazy match afterwards. FROZEN FORMAT (C04): every rule in here -- the
+/// 3-byte-match distance limit, the lazy rule with max_lazy / good_length, the quartered search depth of zlib, the
+/// pending match kept only by zlib-compatible streams -- decides what the stored corrections mean.
+#[verifier::opaque]
+pub open spec fn sp_predict(hv: int, pending: Option<PreflateTokenReference>, e: Env, pos: int) -> (PreflateToken, Option<PreflateTokenReference>) {
+    let lit = PreflateToken::Literal(e.text[pos]);
+    if pos == 0 || e.text.len() - pos < 3 { (lit, pending) } else {
+        let m = match pending { Some(p) => MatchResult::Success(p), None => sp_match0(hv, 0, e.p.max_chain, e, pos) };
+        match m {
+            MatchResult::Success(mt) => {
+                let l = ref_len(mt);
+                if l == 3 && mt.dist as u32 > e.p.max_dist_3_matches as u32 { (lit, None) } else {
+                    match e.p.matching_type {
+                        MatchingType::Lazy { good_length, max_lazy } => {
+                            if l < max_lazy as u32 && e.text.len() - pos >= l + 2 {
+                                let depth: u32 = if e.p.zlib_compatible && l >= good_length as u32 { e.p.max_chain >> 2 } else { e.p.max_chain };
+                                match sp_match1(hv, l, depth, e, pos) {
+                                    MatchResult::Success(m2) => if ref_len(m2) > l { (lit, if e.p.zlib_compatible { Some(m2) } else { None }) } else { (PreflateToken::Reference(mt), None) },
+                                    _ => (PreflateToken::Reference(mt), None),
+                                }
+                            } else { (PreflateToken::Reference(mt), None) }
+                        },
+                        MatchingType::Greedy => (PreflateToken::Reference(mt), None),
+                    }
+                }
+            },
+            _ => (lit, None),
+        }
+    }
+}
+/// the pending lazy match, if any, is a usable reference at the current position
+pub open spec fn pv_pend_ok(v: PV, e: Env) -> bool {
+    v.pending matches Some(p) ==> !p.irregular258 && p.dist >= 1 && v.pos > 0 && v.pos + ref_len(p) <= e.text.len()
+}
 pub uninterp spec fn sp_match0(hv: int, prev_len: u32, max_depth: u32, e: Env, pos: int) -> MatchResult;
 
 pub open spec fn m_lpw() -> int { CodecMisprediction::LiteralPredictionWrong as int }
